@@ -152,3 +152,19 @@ def symbolic_event(it, name='e', user=True):
     else:
         c.assume(sig >= 1)
     return e
+
+
+def overflow_keeps_order(old, new, x, at_back):
+    """On overflow exactly one pending event is displaced (which one is not specified) and the others keep their
+    relative order; the new event sits at the back (fifo) or at the front (lifo)."""
+    n = old.len
+    v = z3.Int('victim!spec')
+    off = 0 if at_back else 1
+
+    def without(vv):
+        return z3.And(
+            z3.ForAll([_i], z3.Implies(z3.And(0 <= _i, _i < vv), new.at(_i + off) == old.at(_i))),
+            z3.ForAll([_i], z3.Implies(z3.And(vv < _i, _i < n), new.at(_i - 1 + off) == old.at(_i))))
+    newpos = new.at(n - 1) == x if at_back else new.at(0) == x
+    return z3.And(new.len == n, newpos, z3.Or(without(z3.IntVal(0)), without(n - 1),
+                                             z3.Exists([v], z3.And(0 <= v, v < n, without(v)))))
